@@ -23,7 +23,8 @@ def make_work(rng, tier):
             q = g.query()
             if not ({"correlated", "exists", "in_sub", "scalar_sub", "cte", "cte_def", "view", "lateral"} & q.classes):
                 continue
-            runs.append((q, {"partitions": rng.choice([1, 2, 4]), "enable_optimizer": bool(rng.below(2))}))
+            runs.append((q, {"partitions": rng.choice([1, 2, 4]), "enable_optimizer": bool(rng.below(2)),
+                             "batch_size": rng.choice([1, 2, 4, 2048, 2048])}))
         work.append({"id": "c09-%d" % i, "tables": tables, "runs": runs, "prelude": list(g.prelude), "mode": "det", "det_partitions": 2,
                      "sched": {"kind": "fifo", "seed": 1}})
     # quantified-comparison matrix: every operator x ANY/ALL over small integer domains with NULLs, duplicates
